@@ -1928,6 +1928,18 @@ func (sc *serverConn) flushStreams(strms Streams, closeStream func(*Stream)) {
 func (sc *serverConn) sendPingAndSchedule() {
 	sc.writePing()
 
+	// writePing can sit in a full queue while the connection is torn down
+	// around it. Both Stop calls of the teardown then find nothing to stop, and
+	// re-arming here kept the timer, and through it the whole connection, alive
+	// and firing for as long as the process ran.
+	select {
+	case <-sc.writeStop:
+		return
+	case <-sc.writerGone:
+		return
+	default:
+	}
+
 	sc.pingTimer.Reset(sc.pingInterval)
 }
 
